@@ -1,1 +1,6 @@
-"""C06"""
+"""C06 -- semantic actions (proof part from the contracts tagged C06; bounded histories on reused parsers)."""
+
+
+def bounded(tier, seed, info):
+    from bounded.bHist import run_parser_histories
+    return run_parser_histories('C06', tier, seed)
